@@ -896,11 +896,38 @@ def check_statistics(rep, prog, tier):
         rep.ob('R-ALG', 'Spectrum.Fst components r=%d' % r, ok, det, m.rel, fn.lineno, what='variance components of Weir & Cockerham for unequal sample sizes')
 
 
+def check_weights_not_modified(rep, prog):
+    """the hypergeometric weights a data dictionary is projected with come from Numerics' projection cache by reference (for one
+    population the spectrum of a SNP IS the cached array): the functions that turn counts into a spectrum must not update them in
+    place, or every later spectrum (chunks, bootstraps, a repeated call) is built from modified weights.  Alias / effect analysis
+    (sa.effects) over Spectrum_mod and Numerics."""
+    from sa.effects import compute_summaries
+    from sa.pyxfront import ext_table
+    ext, _, _ = ext_table()
+    summaries, results, rounds = compute_summaries(prog, ext, modules=['dadi.Spectrum_mod', 'dadi.Numerics'])
+    sm = prog.mod(SM)
+    bad, fills = [], 0
+    for fid, an in results.items():
+        for (g, node, text, direct) in an.gmut:
+            if g == 'G:dadi.Numerics._projection_cache':
+                if direct:
+                    fills += 1
+                else:
+                    bad.append((an, node, text))
+    for an, node, text in bad:
+        rep.ob('R-MEMO', '%s:%s' % (an.m.rel, an.fn._qualname), False, '%s writes into an array read from the projection cache: later spectra are built from modified weights' % text,
+               an.m.rel, getattr(node, 'lineno', 0), what='memoised projection weights are modified')
+    if not bad:
+        rep.ob('R-MEMO', 'projection weights', fills >= 1, '%d memo fill(s); no function of Spectrum_mod / Numerics writes through an array obtained from the projection cache (%d functions analysed)' % (fills, len(results)),
+               sm.rel, prog.func(SM, 'Spectrum._from_count_dict').lineno, what='memoised projection weights are never modified')
+
+
 def run(rep, prog, tier):
     for mod in (MISC, SM, 'dadi.Numerics'):
         rep.saw_file(prog.mod(mod).rel)
     check_count_data_dict(rep, prog)
     check_from_count_dict(rep, prog)
+    check_weights_not_modified(rep, prog)
     check_fragment(rep, prog)
     check_parsers(rep, prog)
     check_statistics(rep, prog, tier)
